@@ -220,6 +220,13 @@ def _int_bounds_atom(pc: List[Term], v: Term) -> Tuple[Optional[int], Optional[i
                 upd(g[1], g[3][1])
             elif g[3] == v and T.is_c(g[2]):
                 upd(flip[g[1]], g[2][1])
+            else:
+                # k*v + c0 OP K  with k > 0 (e.g. len(rest) = nparts - 1 compared with a constant)
+                for lhs, rhs, op in ((g[2], g[3], g[1]), (g[3], g[2], flip[g[1]])):
+                    if isinstance(lhs, tuple) and lhs and lhs[0] == "lin" and T.is_c(rhs) and isinstance(rhs[1], (int, float)):
+                        lv = Lin.of(lhs)
+                        if len(lv.coef) == 1 and v in lv.coef and isinstance(lv.coef[v], int) and lv.coef[v] > 0 and isinstance(lv.const, (int, float)):
+                            upd(op, (rhs[1] - lv.const) / lv.coef[v])
         elif g[0] == "cmp" and g[1] == "in" and g[2] == v and isinstance(g[3], tuple) and g[3]:
             coll = g[3]
             if coll[0] == "app" and coll[1] in ("range", "builtins.range") and 3 <= len(coll) <= 4 and all(T.is_c(x) and isinstance(x[1], int) for x in coll[2:]):
